@@ -1,6 +1,7 @@
 package server
 
 import (
+	"fmt"
 	"sync"
 
 	"github.com/cenkalti/rpc2"
@@ -25,4 +26,16 @@ func (c *lockedCodec) WriteResponse(r *rpc2.Response, v interface{}) error {
 	c.mu.Lock()
 	defer c.mu.Unlock()
 	return c.Codec.WriteResponse(r, v)
+}
+
+// ReadHeader turns a panic of the wrapped codec on a message that is neither
+// a request nor a response (no method and no id) into an error: the
+// connection is closed instead of the process
+func (c *lockedCodec) ReadHeader(req *rpc2.Request, resp *rpc2.Response) (err error) {
+	defer func() {
+		if r := recover(); r != nil {
+			err = fmt.Errorf("malformed message: %v", r)
+		}
+	}()
+	return c.Codec.ReadHeader(req, resp)
 }
